@@ -25,6 +25,8 @@ def timed_case(draw, max_sources=3):
     if src.pop("zero") and src["times"] >= 1:
       src["period"] = draw(st.sampled_from([0, 0.0]))
   return {"sources": sources, "parked": draw(st.booleans()),
+          # the timed posts are made before the chart is started; it is started 0-2 periods later
+          "start_late": draw(st.sampled_from([None, None, None, 0.0, 0.6, 1.3])),
           "plain": draw(st.lists(st.sampled_from(["fifo", "lifo"]), max_size=2)),
           "schedule": [list(x) for x in draw(schedule_st)]}
 
@@ -52,7 +54,7 @@ class TimedWorld:
     from miros.event import Event, signals
     self.Event, self.signals = Event, signals
     self.files = detsched.miros_files()
-    for s_ in ("VA", "VB", "VC", "VD", "VE", "VGATE", "VSTOP", "VSLOW"):
+    for s_ in ("VA", "VB", "VC", "VD", "VE", "VGATE", "VSTOP", "VSLOW", "VCRASH"):
       signals.append(s_)
     self.rec = aocheck.Rec()
     self.rec.gate["open"] = False
@@ -68,7 +70,7 @@ class TimedWorld:
         s.block(lambda: rec.gate["open"], None, what="gate")
       elif on_extra is not None:
         on_extra(c, e)
-    fn = aocheck.flat_chart(rec, on_dispatch=on_dispatch, sigs=["VA", "VB", "VC", "VD", "VE", "VGATE", "VSTOP", "VSLOW"])
+    fn = aocheck.flat_chart(rec, on_dispatch=on_dispatch, sigs=["VA", "VB", "VC", "VD", "VE", "VGATE", "VSTOP", "VSLOW", "VCRASH"])
     return chart, fn
 
   def run(self, body, step_limit=600000):
@@ -87,7 +89,8 @@ class C10(Prop):
           "advances only when every thread is blocked): 1-3 concurrent post_fifo/post_lifo calls "
           "with period p (from a set with equal, tiny (1e-6) and long periods, any float in "
           "[1e-4, 5], or 0 for sources with a repeat count), times n in {0,1,2,3,4,6} and deferred True/False/default, optionally while "
-          "the object's thread is parked behind a gate with plain events pending, under generated "
+          "the object's thread is parked behind a gate with plain events pending, optionally made "
+          "BEFORE start_at (the chart is started 0-1.3 s later), under generated "
           "schedules. Each posting is stamped with virtual time by an overriding post method. "
           "Oracle: per source the posting instants equal exactly t0+p, t0+2p, ... (deferred) or "
           "t0, t0+p, ... (not deferred), computed by the same repeated float addition; exactly n "
@@ -110,9 +113,11 @@ class C10(Prop):
 
     def body(s):
       chart, fn = w.make_chart(s)
-      chart.start_at(fn)
-      s.quiesce()
-      if case["parked"]:
+      late = case.get("start_late")
+      if late is None:
+        chart.start_at(fn)
+        s.quiesce()
+      if case["parked"] and late is None:
         chart.post_fifo(Event(signal=signals["VGATE"], payload=0))
         s.quiesce()
       for j, kind in enumerate(case["plain"]):
@@ -132,6 +137,10 @@ class C10(Prop):
         # an endless source fires until the horizon: keep the number of firings small
         horizon = t0 + 8 * min(endless)
       info["t0"], info["horizon"] = t0, horizon
+      if late is not None:
+        # postings made meanwhile wait in the queue of the not yet started chart
+        s.sleep_until(min(horizon, t0 + late))
+        chart.start_at(fn)
       s.sleep_until(horizon)
       info["mark"] = len(rec.posts)
       info["posts_at_horizon"] = [dict(p) for p in rec.posts]
@@ -168,7 +177,7 @@ class C10(Prop):
           k, [p["kind"] for p in mine], src["kind"]), "C10:kind")
       if ids[k] is None:
         raise PropertyViolation("timed post %d returned no id" % k, "C10:id")
-    if case["parked"]:
+    if case["parked"] and case.get("start_late") is None:
       # placement: while the consumer is parked nothing is popped, so the dispatch order after the
       # gate must be explained by SOME order of the posts that respects their [invoke, return]
       # intervals (two timers firing at one instant may overlap), fifo = back, lifo = front
